@@ -191,7 +191,9 @@ Not(x) ==
   ELSE Fit(x.t, (0 - 1) - x.v)
 
 \* truth value used by IF / WHILE / DO: zero is false
-Truth(x) == x.v # 0
+\* (a fractional constant +-(w + f/10), f # 0, is never zero)
+Truth(x) == IF x.t = "F" THEN TRUE ELSE x.v # 0
+HasTruth(x) == x.t \in NumTypes \/ x.t = "F"
 
 (***************************************************************************)
 (* Text of a number as PRINT shows it: a leading blank or minus sign, the    *)
